@@ -840,6 +840,9 @@ func genWorld(r *Rand, cfg GenCfg) Plan {
 		ck := &CheckSpec{Inv: c.inv.Label, Variants: vlabels}
 		if faulty && r.Chance(0.2) && len(c.inv.Prf) > 0 {
 			ck.LFaults = []LoaderFault{{Call: r.Intn(len(c.inv.Prf)), Kind: Pick(r, []string{"notfound", "error"})}}
+			if r.Chance(0.35) && len(dl) > 0 {
+				ck.LFaults[0].Kind, ck.LFaults[0].With = "swap", dl[r.Intn(len(dl))]
+			}
 		}
 		if r.Chance(0.3) {
 			ck.Prov = Pick(r, []string{"inv-built", "dlg-built", "all-built"})
@@ -932,6 +935,48 @@ func genWorld(r *Rand, cfg GenCfg) Plan {
 	// --- the main check at Tc
 	g.tickTo(tcNS)
 	g.emit(WStep{Op: "check", Check: mkCheck()})
+
+	// --- a sibling chain that shares the lower links (the leaf included) with the chain that was
+	// just checked, but hangs under ANOTHER parent at one position, and that parent deviates: a
+	// decision about one chain says nothing about another chain through the same delegations
+	if conform && len(c.dlgs) >= 2 && r.Chance(0.3) {
+		n := len(c.dlgs)
+		j := r.Intn(n - 1) // root .. second-to-last: the delegation that is replaced
+		d2 := c.dlgs[j]
+		d2.Label = g.newDlgLabel()
+		d2.Pol = append([]Stmt{}, d2.Pol...)
+		kind := Pick(r, []string{"K", "K", "P", "Q", "W"})
+		switch kind {
+		case "K":
+			// the parent grants less than the shared link below it passes on
+			d2.Cmd = extendCmd(r, c.dlgs[j+1].Cmd)
+			if d2.Cmd == c.dlgs[j+1].Cmd {
+				kind = "P"
+				d2.Aud = g.other(d2.Aud)
+			}
+		case "P":
+			d2.Aud = g.other(d2.Aud)
+		case "Q":
+			d2.Pol = append(d2.Pol, genStmt(r, c.inv.Args, false, 0, true))
+		case "W":
+			d2.Exp, d2.Nbf = ptr(tcSec-int64(r.Range(1, 4000))), nil
+		}
+		inv2 := c.inv
+		inv2.Label = g.newInvLabel()
+		inv2.Prf = append([]string{}, c.inv.Prf...)
+		for i, l := range inv2.Prf {
+			if l == c.dlgs[j].Label {
+				inv2.Prf[i] = d2.Label
+			}
+		}
+		g.issueDlg(d2)
+		g.issueInv(inv2)
+		g.emit(WStep{Op: "ship", Ship: g.shipSpec(append(append([]string{}, dl...), append(il, d2.Label, inv2.Label)...), false)})
+		g.emit(WStep{Op: "check", Check: &CheckSpec{Inv: c.inv.Label}})
+		g.emit(WStep{Op: "check", Check: &CheckSpec{Inv: inv2.Label}})
+		g.emit(WStep{Op: "check", Check: &CheckSpec{Inv: c.inv.Label}})
+		g.note("sibling:" + kind)
+	}
 
 	// --- recovery: after the last fault everything is re-delivered fault-free
 	if faulty && r.Chance(0.6) {
@@ -1191,6 +1236,33 @@ func (g *wgen) deviateQ(c *chain) {
 		pos = "leaf"
 	}
 	s := genStmt(r, c.inv.Args, false, 0, true)
+	if r.Chance(0.2) {
+		// twins: the false statement compares an integer argument with a FLOAT of a value for
+		// which the same statement over the integer is true, and that true twin sits elsewhere
+		// in the chain (statements that print alike are still two statements)
+		for _, kv := range c.inv.Args {
+			if kv.V.K == "int" && kv.V.I > -1000 && kv.V.I < 1000 {
+				d := int64(r.Range(0, 5))
+				op := Pick(r, []string{"<=", ">=", "=="})
+				lim := kv.V.I
+				switch op {
+				case "<=":
+					lim += d
+				case ">=":
+					lim -= d
+				}
+				s = Stmt{Op: op, Sel: "." + kv.Key, Val: ptr(vFloat(float64(lim)))}
+				twin := Stmt{Op: op, Sel: "." + kv.Key, Val: ptr(vInt(lim))}
+				j := r.Intn(n)
+				c.dlgs[j].Pol = append([]Stmt{twin}, c.dlgs[j].Pol...)
+				if r.Chance(0.3) {
+					c.dlgs[n-1].Pol = append([]Stmt{twin}, c.dlgs[n-1].Pol...)
+				}
+				g.note("Q:twin")
+				break
+			}
+		}
+	}
 	pl := c.dlgs[k].Pol
 	i := r.Intn(len(pl) + 1)
 	c.dlgs[k].Pol = append(pl[:i:i], append([]Stmt{s}, pl[i:]...)...)
